@@ -83,6 +83,12 @@ def main():
                     ops_real.append([k for k in keys])        # multiunion wants a sequence of iterables
                 else:
                     ops_real.append(keys)
+            if rep % 3 == 2:
+                # bare integers at both ends of the family's range (and next to them), among the other operands
+                for r_ in (len(K), 1, len(K) - 1, 2, len(K)):
+                    at = rng.randint(0, len(ops_model))
+                    ops_model.insert(at, [r_])
+                    ops_real.insert(at, K[r_ - 1])
             try:
                 res = mu(ops_real)
                 kindname = 'Set' if type(res) is SE else type(res).__name__
